@@ -128,7 +128,7 @@ def run_exact(res, tier, seed, replay, clauses, algos='signed,fvs,iso', types='d
         if inputs is None:
             inputs = exact_inputs(res, tier, seed, wd)
         lines = to_lines(inputs)
-        trace = vlib.parallel_record(exe, lines, wd, 'mcb', extra=['--algos', algos, '--types', types, '--tol', str(tol)])
+        trace = vlib.parallel_record(exe, lines, wd, 'mcb', extra=['--algos', algos, '--types', types, '--tol', str(tol), '--positional'])
         if layouts > 1 and not replay:
             # memory layout as an input: the signed variant iterates std::set<edge_descriptor>, i.e. in address order of the
             # edge nodes; run it again with the nodes placed in reversed and in seeded random address orders (arena.hpp)
@@ -226,24 +226,29 @@ def c09_inputs(rng, tier):
         inputs.append((gens.reweight(rng, g, list(range(1, 999))), 1000))
     # near ties: k/10 + j*1e-6 (den 10^6) and k/10 + j*1e-7 (den 10^7): distinct path weights that differ by 1e-8..1e-6
     # relative, i.e. far above double rounding and far below any 'generous' comparison slack
-    for _ in range(260 if tier == 'quick' else 4000):
+    for _ in range(360 if tier == 'quick' else 5000):
         n = rng.randint(5, 7)
         m = rng.randint(n + 2, min(n * (n - 1) // 2, 16))
-        if rng.random() < 0.5:
+        u = rng.random()
+        if u < 0.35:
             den, wg = 1000000, (lambda: rng.randint(1, 9) * 100000 + rng.randint(0, 9))
-        else:
+        elif u < 0.7:
             den, wg = 10000000, (lambda: rng.randint(1, 4) * 1000000 + rng.randint(0, 9))
+        else:       # differences of 1e-8 .. 1e-7 relative: below single precision, far above double rounding
+            n = rng.randint(5, 6)
+            m = rng.randint(n + 2, min(n * (n - 1) // 2, 11))
+            den, wg = 100000000, (lambda: rng.randint(1, 3) * 10000000 + rng.randint(0, 9))
         inputs.append((gens.rand_graph(rng, n, m, wg), den))
     return inputs
 
 
 def check_C09(res, tier, seed, replay):
     rng = random.Random(seed)
-    res.assumptions += ['weights are k/den for integers k, den in {10^3, 10^6, 10^7}; the oracle runs on the integers k (exact); the rounding of k/den to double (<= 2^-53 relative) is nine orders of magnitude below the 1e-9 tolerance',
+    res.assumptions += ['weights are k/den for integers k, den in {10^3, 10^6, 10^7, 10^8}; the oracle runs on the integers k (exact); the rounding of k/den to double (<= 2^-53 relative) is nine orders of magnitude below the 1e-9 tolerance',
                         'ret is logged as nearest integer of ret*den plus the fraction in 1e-9 units; |ret - opt| <= 1e-9 * opt is decided in 32-bit integer arithmetic']
     inputs = None if replay else c09_inputs(rng, tier)
     run_exact(res, tier, seed, replay, CLAUSES['C09'], algos='signed,fvs,iso,signed_tbb,fvs_tbb,iso_tbb', types='double', tol=1, inputs=inputs)
-    res.cov['rule'] = 'random graphs n<=9, m<=15 with decimal weights k/1000 (uniform 0.001..1000, tie-provoking {0.1,0.2,0.3} patterns, small decimals), near-tie weights k/10 + j*1e-6 / j*1e-7, and reweighted families; six exact variants (sequential + real oneTBB)'
+    res.cov['rule'] = 'random graphs n<=9, m<=15 with decimal weights k/1000 (uniform 0.001..1000, tie-provoking {0.1,0.2,0.3} patterns, small decimals), near-tie weights k/10 + j*1e-6 / j*1e-7 / j*1e-8, and reweighted families; six exact variants (sequential + real oneTBB)'
 
 
 REGISTRY['C09'] = check_C09
